@@ -30,6 +30,12 @@ pub fn strategy() -> impl Strategy<Value = Case> {
     })
 }
 
+/// the same case space, addressed by the words of a fuzz input (see `crate::words`)
+pub fn case_from_words(w: &mut crate::words::Words) -> Case {
+    use crate::words::draw;
+    Case { doc: gen::gdoc_from_words(w), claims: draw(&gen::gclaims(), w.next()), url: draw(&gen::gurl(), w.next()), bind: draw(&gen::bind(), w.next()), perm_seed: w.next(), flip: w.next() as u32 }
+}
+
 pub const RULE: &str = "generator: rule document (pools of 4 privilege / 3 role / 4 identity names with dangling and duplicate names, each section independently absent, paths and query keys/values with per-character case flips, mode and defaultAccess with case variants) x claims from the same pools (60% bound to one of the document's identities) x request URL (70% bound to one of the document's privileges: its path + suffix and a subset of its parameters; otherwise pool path + suffix, case flips, duplicate/valueless/empty/prefix-related query keys, %xx); the document goes through the agent's serde types and from_authorization_item, then is_allowed. non-trivial: mode != disabled, >= 2 privileges of which >= 1 matches the URL, >= 1 identity reachable through a role assignment, and the case lies outside the two under-specified classes (conflicting duplicate names, duplicate request query keys); distinct by hash of (document, claims, url).";
 
 fn xorshift(s: &mut u64) -> u64 {
